@@ -103,7 +103,8 @@ class LoopFn:
 
     def coqtype_of(self, q):
         q = TYPEDEFS.get(norm_type(q), q)
-        if norm_type(q) in self.cfg.get("enums", []):
+        qn = re.sub(r"\bconst\b", "", norm_type(q)).strip()
+        if qn in self.cfg.get("enums", []) or qn.split("::")[-1] in self.cfg.get("enums", []):
             return "Z"
         t = ctype(q)
         if t[0] in ("int", "bool", "enum"):
@@ -716,6 +717,13 @@ class LoopFn:
         if kd == "ReturnStmt":
             if not inn:
                 return self.ret("tt")
+            if getattr(self, "returns_self", False):
+                x = inn[0]
+                while x.get("kind") in SKIP or x.get("kind") in CASTS:
+                    x = self.inner(x)[0]
+                if x.get("kind") == "UnaryOperator" and x.get("opcode") == "*" and self.inner(x)[0].get("kind") == "CXXThisExpr":
+                    return self.ret("tt")
+                raise Unsupported("a function returning a reference returns something other than *this")
             return self.E(inn[0], lambda v: self.ret(v))
         if kd == "BreakStmt":
             if not ctx.get("brk"):
